@@ -24,7 +24,7 @@ EXTRACT = ["C18"]
 BINS = ["c18"]
 NEEDS_CICADA = True
 ALLOWED_AXIOMS = []
-PINNED = ["C18_order_partial", "C18_order_refuted", "C18_order_full", "C18_insert_keeps_order", "C18_full", "C18_insert_text", "C18_insert_appends", "C18_select_text", "C18_select_params", "C18_select_arity",
+PINNED = ["C18_order_full", "C18_order_ties", "C18_insert_keeps_order", "C18_full", "C18_insert_text", "C18_insert_appends", "C18_select_text", "C18_select_params", "C18_select_arity",
           "C18_row_matches", "C18_list_sound", "C18_list_complete", "C18_search_complete", "C18_delete_exact",
           "C18_delete_text", "C18_record_rule", "C18_record_sound", "C18_record_complete", "C18_record_independent",
           "C18_record_first", "C18_record_processes"]
@@ -43,9 +43,8 @@ TRUSTED = [
 ASSUMES = [
     "a fresh shell process starts with previous_cmd empty (Shell::new) and history::init does not change it: the repeat "
     "rule compares only with a line recorded by the same process (C18_record_independent / C18_record_first)",
-    "rows with equal tsb: the model takes sqlite's sorter to be stable (ties in rowid order, also for DESC), which SQL "
-    "leaves unspecified; compared with python's sqlite3 and with the bundled one on every tie generated",
-    "the wall clock does not step backwards or stand still (at 240 ns resolution) between two lines submitted at the prompt",
+    "the wall clock does not step backwards between two lines submitted at the prompt (checked per run: the tsb of consecutive "
+    "typed rows must increase strictly -- finer than the property needs since 6b3083d, but what a nanosecond clock gives)",
     "no code point 0 in generated texts (argv and the line editor cannot deliver one)",
 ]
 
@@ -250,14 +249,6 @@ class Verdicts:
         if self.nviol <= 3:
             self.res.violate(layer=self.layer, ops=self.cur_ops, **kw)
 
-    def known_hit(self, cls, example, **kw):
-        k = [f for f in self.known if f.get("class") == cls]
-        if not k:
-            self.violate(kind="oracle", failing_input=True, input=example,
-                         note="defect of class %s reproduces but is not recorded in known_findings.txt" % cls, **kw)
-        else:
-            self.res.known(cls, "class=%s input=%s what=%s" % (cls, example, k[0].get("what", "")))
-
 
 def describe(o):
     if o["k"] == "A":
@@ -338,27 +329,15 @@ def check_scenario(V, ops, mouts, impl, shadow_path):
                 im = (im[0], im[1] if im[0] == "OK" else "")
                 mtxt = ("OK", fmt_list([(r[0], r[1]) for r in mrows]))
                 ties = matched_ties(conn, o)
-                if mtxt != faithful or (not ties and faithful != want):
+                if mtxt != want or faithful != want:
                     V.violate(kind="correspondence", failing_input=False, function="select_stmt/db_list", input=hist[:],
                               model=mtxt, sqlite_on_model_stmt=faithful, expected=want, sql=sql, params=params, ties=ties)
-                if im != want and ties:
-                    # known class list-tie-order: rows with equal tsb (here always from `history add -t`)
-                    if im == faithful:
-                        V.known_hit("list-tie-order", "%s -> lists %r, submission order is %r" % (
-                            "; ".join(hist[-4:]), im[1].split("\n"), want[1].split("\n")))
-                        res.nontrivial("known-tie:" + im[1])
-                    else:
-                        V.violate(kind="oracle", failing_input=True, input=hist[:], expected=want, observed=im,
-                                  faithful_model=faithful, sql=sql,
-                                  note="inside known class list-tie-order, but neither the recorded wrong order nor submission order")
-                elif im != want:
-                    V.violate(kind="oracle", failing_input=True, input=hist[:], expected=want, observed=im, sql=sql,
-                              note="listing differs from the rows selected by pattern / directory / session in time "
-                                   "(= submission) order (or listing failed)")
-                elif ties and faithful != want:
-                    res.extra.setdefault("findings_no_longer_reproducing", [])
-                    if "list-tie-order" not in res.extra["findings_no_longer_reproducing"]:
-                        res.extra["findings_no_longer_reproducing"].append("list-tie-order")
+                if im != want:
+                    V.violate(kind="oracle", failing_input=True, input=hist[:], expected=want, observed=im, sql=sql, ties=ties,
+                              note="listing differs from the rows selected by pattern / directory / session in time order, "
+                                   "rows with equal time in submission order (or listing failed)")
+                elif ties and want[1]:
+                    res.nontrivial("tie-list:" + want[1])
                 elif want[1]:
                     res.nontrivial("list:" + o["pattern"] + "|" + want[1])
                 if "'" in o["pattern"] or (o["p"] and "'" in o["dir"]):
@@ -733,20 +712,16 @@ def layer3(ctx, res, V, work):
         groups = {}
         for r, sc in zip(rows, src):
             groups.setdefault(r[3], []).append(sc[0])
-        ties_only_add = all(set(v) == {"A"} for v in groups.values() if len(v) > 1)
-        has_ties = any(len(v) > 1 for v in groups.values())
+        if any(len(v) > 1 for v in groups.values()):
+            res.nontrivial("tied-add-rows:" + "|".join(describe_procs(procs)))
         for (cmd, asc, lim), got_l in zip(LISTINGS, lists):
             want_l = order[:lim] if asc else order[-lim:]
             if got_l == want_l:
                 res.nontrivial("order:%s:%r" % (cmd, want_l))
                 continue
-            if has_ties and ties_only_add:
-                V.known_hit("list-tie-order", "%s; then `%s` in a later process -> %r, submission order is %r" % (
-                    "; ".join(describe_procs(procs)), cmd, got_l, want_l))
-            else:
-                V.violate(kind="oracle", failing_input=True, procs=procs, input=describe_procs(procs) + ["later process: cicada -c '%s'" % cmd],
-                          expected=want_l, observed=got_l, rows=[(r[0], r[1], r[3]) for r in rows],
-                          note="the listing in a later shell process does not show the recorded lines in submission order")
+            V.violate(kind="oracle", failing_input=True, procs=procs, input=describe_procs(procs) + ["later process: cicada -c '%s'" % cmd],
+                      expected=want_l, observed=got_l, rows=[(r[0], r[1], r[3]) for r in rows],
+                      note="the listing in a later shell process does not show the recorded lines in submission order")
             break
     res.count("L3_process_sequences", len(seqs))
     res.count("L3_processes", sum(len(s) for s in seqs))
